@@ -412,3 +412,126 @@ func vpSameFaces(a, b *Mesh) bool {
 	})
 	return ok
 }
+
+// vpFullLattice: like vpLatticeSolid, but the outer lattice layer (the points
+// one spacing outside the declared bounds) has symbolic membership too, i.e.
+// the declared bounds may be too small.
+type vpFullLattice struct {
+	nx, ny, nz int // interior counts; the lattice has (n+2) points per axis
+	vals       []bool
+}
+
+func (l *vpFullLattice) Min() Coord3D { return XYZ(0, 0, 0) }
+func (l *vpFullLattice) Max() Coord3D { return XYZ(float64(l.nx-1), float64(l.ny-1), float64(l.nz-1)) }
+func (l *vpFullLattice) Contains(c Coord3D) bool {
+	x, y, z := int(c.X+1), int(c.Y+1), int(c.Z+1)
+	return l.vals[x+y*(l.nx+2)+z*(l.nx+2)*(l.ny+2)]
+}
+
+func vpPanics(f func()) (p bool) {
+	defer func() {
+		if recover() != nil {
+			p = true
+		}
+	}()
+	f()
+	return false
+}
+
+// VP_C01_Refusal: the slab cache (MarchingCubes) and the block cache
+// (MarchingCubesFilter) refuse - panic - exactly when the solid is true on
+// some point of the outer lattice layer, whichever of the six sides it is on.
+func VP_C01_Refusal() {
+	nx, ny, nz := vp.Param("nx"), vp.Param("ny"), vp.Param("nz")
+	l := &vpFullLattice{nx: nx, ny: ny, nz: nz, vals: make([]bool, (nx+2)*(ny+2)*(nz+2))}
+	outer := false
+	idx := 0
+	for z := 0; z < nz+2; z++ {
+		for y := 0; y < ny+2; y++ {
+			for x := 0; x < nx+2; x++ {
+				l.vals[idx] = vp.Bool("inside")
+				if x == 0 || y == 0 || z == 0 || x == nx+1 || y == ny+1 || z == nz+1 {
+					outer = vp.Or(outer, l.vals[idx])
+				}
+				idx++
+			}
+		}
+	}
+	spacer := newSquareSpacer(l, 1)
+	vp.Assert(len(spacer.Xs) == nx+2 && len(spacer.Ys) == ny+2 && len(spacer.Zs) == nz+2, "lattice has one layer outside the bounds on each side")
+	slab := vpPanics(func() {
+		c := newSolidCache(l, spacer)
+		for z := range spacer.Zs {
+			c.FetchZ(z)
+		}
+	})
+	vp.Assert(slab == outer, "slab cache refuses exactly the solids that are true on the outer lattice layer")
+	block := vpPanics(func() {
+		root := newMcBlock(spacer)
+		newMcBlockCache().Populate(&root, l)
+	})
+	vp.Assert(block == outer, "block cache refuses exactly the solids that are true on the outer lattice layer")
+	vp.Reach("end")
+}
+
+// vpEdgeManifoldSym: every directed edge of the mesh occurs exactly once and
+// its reverse exactly once, decided on symbolic coordinates without going
+// through the coordinate hash maps (no branching: one formula per mesh).
+func vpEdgeManifoldSym(m *Mesh) bool {
+	type dedge struct{ a, b Coord3D }
+	var es []dedge
+	for _, t := range m.TriangleSlice() {
+		for i := 0; i < 3; i++ {
+			es = append(es, dedge{t[i], t[(i+1)%3]})
+		}
+	}
+	eq := func(p, q Coord3D) bool { return vp.All(p.X == q.X, p.Y == q.Y, p.Z == q.Z) }
+	ok := true
+	for i, e := range es {
+		var same, rev uint8
+		for j, f := range es {
+			if i != j {
+				same += vp.IteU8(vp.And(eq(e.a, f.a), eq(e.b, f.b)), 1, 0)
+			}
+			rev += vp.IteU8(vp.And(eq(e.a, f.b), eq(e.b, f.a)), 1, 0)
+		}
+		ok = vp.All(ok, same == 0, rev == 1, !eq(e.a, e.b))
+	}
+	return ok
+}
+
+// VP_C01_Torus / Cone / Cylinder: the parametric generators for a symbolic
+// centre and symbolic radii (exact arithmetic: the seam vertices have to
+// coincide because they are computed from the same wrapped index, not by
+// rounding luck) and the stop counts given by the parameters: every directed
+// edge is matched by exactly one reverse edge, no edge is degenerate, and the
+// triangle count is the expected one.
+func VP_C01_Torus() {
+	is, os := vp.Param("inner"), vp.Param("outer")
+	center := XYZ(vp.Float64("cx"), vp.Float64("cy"), vp.Float64("cz"))
+	ri, ro := vp.Float64("innerRadius"), vp.Float64("outerRadius")
+	vp.Assume(vp.All(ri > 0, ri < ro))
+	axes := []Coord3D{X(1), Z(1), XYZ(1, 2, 3), XYZ(-2, 0.5, 0)}
+	axis := axes[vp.Choice("axis", len(axes))]
+	m := NewMeshTorus(center, axis, ri, ro, is, os)
+	vp.Assert(len(m.TriangleSlice()) == 2*is*os, "two triangles per quad")
+	vp.Assert(vpEdgeManifoldSym(m), "NewMeshTorus: closed oriented manifold (every edge matched by one reverse edge)")
+	vp.Reach("end")
+}
+
+func VP_C01_ConeCyl() {
+	n := vp.Param("stops")
+	base := XYZ(vp.Float64("cx"), vp.Float64("cy"), vp.Float64("cz"))
+	r := vp.Float64("radius")
+	vp.Assume(r > 0)
+	dirs := []Coord3D{X(1), Z(2), XYZ(1, 2, 3), XYZ(-2, 0.5, 0)}
+	d := dirs[vp.Choice("axis", len(dirs))]
+	if vp.Param("cone") == 1 {
+		m := NewMeshCone(base.Add(d), base, r, n)
+		vp.Assert(vpEdgeManifoldSym(m), "NewMeshCone: closed oriented manifold")
+	} else {
+		m := NewMeshCylinder(base, base.Add(d), r, n)
+		vp.Assert(vpEdgeManifoldSym(m), "NewMeshCylinder: closed oriented manifold")
+	}
+	vp.Reach("end")
+}
